@@ -196,8 +196,9 @@ def build(chk: Check) -> None:
             by_kind: dict[str, list] = {}
             for o in ex.merged_obligations():
                 by_kind.setdefault(o.name.split(".")[-1], []).append(z3.Implies(z3.And(*o.hyps) if o.hyps else z3.BoolVal(True), o.claim))
+            by_kind.setdefault("key_present", [])  # no dict[key] on any path (e.g. the code uses .get): nothing to demand, holds trivially
             for kind_, cls_ in by_kind.items():
-                chk.smt(f"prefactor[{tag}].{kind_}", [], z3.And(*cls_), function=F, lemma=True, replay=search, tactics=("default",))
+                chk.smt(f"prefactor[{tag}].{kind_}", [], z3.And(*cls_) if cls_ else z3.BoolVal(True), function=F, lemma=True, replay=search, tactics=("default",))
             chk.smt(f"prefactor[{tag}].ens.product_over_exactly_the_flipped_nodes", [], z3.And(*clauses) if clauses else z3.BoolVal(False), function=F,
                     replay=search, tactics=("default", "nlsat"))
             chk.smt(f"prefactor[{tag}].ens.never_raises", [], z3.And(*no_raise) if no_raise else z3.BoolVal(True), function=F, replay=search, tactics=("default",))
